@@ -4,13 +4,13 @@ Import ListNotations.
 From Verif Require Import SendReq.Model SendReq.ProofsBound SendReq.ProofsSelect.
 
 Section Gen.
-Variable once : bool.
+Variable fixed : bool.
 
 Definition pre (c : cfg) (s : state) (prev : option (nat * outcome)) (i : nat) : hres :=
-  match prev with None => HRetry s [] | Some (t, o) => handle once c s t o (pred i) end.
+  match prev with None => HRetry s [] | Some (t, o) => handle fixed c s t o (pred i) end.
 
 Lemma loop_unfold c script s prev i :
-  loop_gen once c script s prev i =
+  loop_gen fixed c script s prev i =
   match pre c s prev i with
   | HDone r evs => (evs, r)
   | HRetry s1 evs1 =>
@@ -24,7 +24,7 @@ Lemma loop_unfold c script s prev i :
           | [] => (evs1 ++ evs2 ++ [ev], RSuccess i)
           | OSuccess :: _ => (evs1 ++ evs2 ++ [ev], RSuccess i)
           | o :: rest =>
-              let '(evs, r) := loop_gen once c rest s3 (Some (t, o)) (S i) in
+              let '(evs, r) := loop_gen fixed c rest s3 (Some (t, o)) (S i) in
               (evs1 ++ evs2 ++ ev :: evs, r)
           end
       end
@@ -47,7 +47,7 @@ Lemma n_rearms_cons_att t a b d evs : n_rearms (EAtt t a b d :: evs) = n_rearms 
 Proof. reflexivity. Qed.
 
 Lemma loop_bound c script : forall s prev i,
-  n_attempts (fst (loop_gen once c script s prev i)) <= room s + n_rearms (fst (loop_gen once c script s prev i)).
+  n_attempts (fst (loop_gen fixed c script s prev i)) <= room s + n_rearms (fst (loop_gen fixed c script s prev i)).
 Proof.
   induction script as [|o rest IH]; intros s prev i; rewrite loop_unfold;
     pose proof (pre_spec c s prev i) as P; destruct (pre c s prev i) as [s1 evs1|r evs1];
@@ -61,7 +61,7 @@ Proof.
   - assert (S3 : room (after_send s2 t) = room s2) by (apply room_eq, after_send_atts).
     specialize (IH (after_send s2 t) (Some (t, o)) (S i)).
     destruct o; try (cbn [fst]; rewrite !n_attempts_app, !n_rearms_app; cbn; lia);
-      destruct (loop_gen once c rest (after_send s2 t) _ (S i)) as [evs r]; cbn [fst] in *;
+      destruct (loop_gen fixed c rest (after_send s2 t) _ (S i)) as [evs r]; cbn [fst] in *;
       rewrite !n_attempts_app, !n_rearms_app, n_attempts_cons_att, n_rearms_cons_att; lia.
 Qed.
 
@@ -70,8 +70,8 @@ Proof. induction l; cbn [map room_l length]; unfold max_replica_attempt in *; li
 
 (* the attempt bound *)
 Lemma run_bound c script rands sleeps :
-  n_attempts (fst (run_gen once c script rands sleeps)) <=
-  max_replica_attempt * length (c_reps c) + n_rearms (fst (run_gen once c script rands sleeps)).
+  n_attempts (fst (run_gen fixed c script rands sleeps)) <=
+  max_replica_attempt * length (c_reps c) + n_rearms (fst (run_gen fixed c script rands sleeps)).
 Proof.
   unfold run_gen. destruct (c_read c && negb (c_val c)); [cbn; lia|].
   pose proof (loop_bound c script (init_state c rands sleeps) None 0) as H.
@@ -85,9 +85,9 @@ Definition is_hint (o : outcome) : bool := match o with ONotLeaderHint _ => true
 Definition n_hints (script : list outcome) : nat := length (filter is_hint script).
 
 Lemma handle_rearms c s t o i :
-  match handle once c s t o i with HRetry _ evs | HDone _ evs => n_rearms evs <= (if is_hint o then 1 else 0) end.
+  match handle fixed c s t o i with HRetry _ evs | HDone _ evs => n_rearms evs <= (if is_hint o then 1 else 0) end.
 Proof.
-  pose proof (handle_spec once c s t o i) as H.
+  pose proof (handle_spec fixed c s t o i) as H.
   destruct o; cbn [handle is_hint] in *;
     try (match goal with |- context [on_send_fail ?a ?b ?c ?d ?e] => pose proof (on_send_fail_spec a b c d e) as X; destruct (on_send_fail a b c d e) end);
     try (match goal with |- context [with_backoff ?a ?b ?c ?d] => pose proof (with_backoff_spec a b c d) as X; destruct (with_backoff a b c d) end);
@@ -95,14 +95,15 @@ Proof.
     repeat match goal with |- context [if ?b then _ else _] => destruct b end;
     try (match goal with |- context [on_busy ?a ?b ?c ?d] => pose proof (on_busy_spec a b c d) as X; destruct (on_busy a b c d) end);
     try (destruct X as (_ & _ & ->)); try (subst; cbn; lia); try (cbn; lia).
-  unfold on_not_leader_hint. cbv zeta. repeat match goal with |- context [if ?b then _ else _] => destruct b end; cbn; lia.
+  all: unfold on_not_leader_hint; cbv beta iota zeta; repeat match goal with |- context [if ?b then _ else _] => destruct b end;
+    unfold n_rearms; cbn [filter is_rearm length]; lia.
 Qed.
 
 Lemma loop_rearms c script : forall s t o i,
-  n_rearms (fst (loop_gen once c script s (Some (t, o)) i)) <= (if is_hint o then 1 else 0) + n_hints script.
+  n_rearms (fst (loop_gen fixed c script s (Some (t, o)) i)) <= (if is_hint o then 1 else 0) + n_hints script.
 Proof.
   induction script as [|o' rest IH]; intros s t o i; rewrite loop_unfold; unfold pre;
-    pose proof (handle_rearms c s t o (pred i)) as P; destruct (handle once c s t o (pred i)) as [s1 evs1|r evs1];
+    pose proof (handle_rearms c s t o (pred i)) as P; destruct (handle fixed c s t o (pred i)) as [s1 evs1|r evs1];
     try (cbn [fst]; lia); cbv zeta;
     set (s1' := if 0 <? i then set_q_retry true s1 else s1);
     pose proof (sel_phase_spec c s1') as Q; destruct (sel_phase c s1') as [s2 t2 evs2|r evs2].
@@ -111,11 +112,11 @@ Proof.
   - cbn [fst]. rewrite !n_rearms_app. cbn. lia.
   - specialize (IH (after_send s2 t2) t2 o' (S i)). unfold n_hints in *. cbn [filter].
     destruct o'; cbn [is_hint length] in *; try (cbn [fst]; rewrite !n_rearms_app; cbn; lia);
-      destruct (loop_gen once c rest (after_send s2 t2) _ (S i)) as [evs r]; cbn [fst] in *;
+      destruct (loop_gen fixed c rest (after_send s2 t2) _ (S i)) as [evs r]; cbn [fst] in *;
       rewrite !n_rearms_app, n_rearms_cons_att; lia.
 Qed.
 
-Lemma run_rearms c script rands sleeps : n_rearms (fst (run_gen once c script rands sleeps)) <= n_hints script.
+Lemma run_rearms c script rands sleeps : n_rearms (fst (run_gen fixed c script rands sleeps)) <= n_hints script.
 Proof.
   unfold run_gen. destruct (c_read c && negb (c_val c)); [cbn; lia|].
   set (s := init_state c rands sleeps). rewrite loop_unfold. cbn [pre]. cbv zeta. cbn [Nat.ltb Nat.leb].
@@ -125,7 +126,7 @@ Proof.
   destruct script as [|o rest]; [cbn [fst app]; rewrite n_rearms_app; cbn; lia|].
   pose proof (loop_rearms c rest (after_send s2 t2) t2 o 1) as L. unfold n_hints in *. cbn [filter].
   destruct o; cbn [is_hint length] in *; try (cbn [fst app]; rewrite !n_rearms_app; cbn; lia);
-    destruct (loop_gen once c rest (after_send s2 t2) _ 1) as [evs r]; cbn [fst app] in *;
+    destruct (loop_gen fixed c rest (after_send s2 t2) _ 1) as [evs r]; cbn [fst app] in *;
     rewrite !n_rearms_app, n_rearms_cons_att; lia.
 Qed.
 
